@@ -229,7 +229,63 @@ TIME = st.builds(lambda h, mi, s, ms, off: ["time", h, mi, s, ms * 1000, off], s
 def scalar_st(t, markup=True):
     if LEX_MODE[0]:
         return lex_scalar_st(t)
+    if WIDE_MODE[0]:
+        return wide_scalar_st(t)
     return _scalar_st(t, markup)
+
+
+# Wide mode (C11): values from the whole space the Python types offer, valid for OFX or not.
+WIDE_MODE = [False]
+WIDE_CH = st.one_of(st.characters(categories=("L", "M", "N", "P", "S", "Zs")), st.sampled_from(list("&<>&<>\"' \t\n]")))
+
+
+def wide_scalar_st(t):
+    from ofxtools import Types
+
+    if isinstance(t, Types.ListElement):
+        return wide_scalar_st(t.converter)
+    if isinstance(t, Types.Bool):
+        return st.booleans().map(lambda b: ["bool", b])
+    if isinstance(t, Types.String):
+        cap = t.length if t.length is not None else 40
+        return st.one_of(
+            st.sampled_from(["AT&T", "a<b", "<![CDATA[x]]>", "&amp;", "&#60;", "&bogus;", "a&b;c", "</OFX>", "&", "<", " x ", "]]>"]).map(lambda x: x[:cap] or "&"),
+            st.text(WIDE_CH, min_size=1, max_size=min(cap, 12)),
+            st.text(st.sampled_from("&<a"), min_size=cap, max_size=cap) if cap <= 300 else st.just("&<"),
+        ).map(lambda x: ["str", x])
+    if isinstance(t, Types.OneOf):
+        return st.sampled_from(list(t.valid)).map(lambda x: ["tok", x])
+    if isinstance(t, Types.Integer):
+        return int_st(t.length).map(lambda n: ["int", n])
+    if isinstance(t, Types.Decimal):
+        special = st.sampled_from(["NaN", "sNaN", "Infinity", "-Infinity", "-0", "0E-10", "0E+5", "1E+2", "1E-30", "-1.50E+3", "1E+30", "123456789012345678901234567890", "0.000000000000000000001"])
+        general = st.builds(
+            lambda sign, digits, exp, norm: _wide_dec(sign, digits, exp, norm),
+            st.booleans(), st.integers(0, 10**15), st.integers(-30, 30), st.booleans(),
+        )
+        if t.scale is not None:
+            k = -t.scale.as_tuple().exponent
+            exact = dec_text_st(t.scale)
+            return st.one_of(special, general, exact, exact).map(lambda x: ["dec", x])
+        return st.one_of(special, general, general).map(lambda x: ["dec", x])
+    if isinstance(t, Types.Time):
+        return st.builds(lambda h, mi, s_, us, off: ["timew", h, mi, s_, us, off], st.integers(0, 23), st.integers(0, 59), st.integers(0, 59), st.integers(0, 999999), st.integers(-86399, 86399))
+    if isinstance(t, Types.DateTime):
+        zone = st.one_of(st.none(), st.sampled_from(["EST", "a<b", "x&y", "]", "[", ":", "A:B]C", "&amp;", "</DTSERVER>"]), st.text(WIDE_CH, min_size=1, max_size=5))
+        return st.builds(
+            lambda y, mo, d, h, mi, s_, us, off, name: ["dtw", y, mo, min(d, R.days_in_month(y, mo)), h, mi, s_, us, off, name],
+            st.integers(1, 9998), st.integers(1, 12), st.integers(1, 31), st.integers(0, 23), st.integers(0, 59), st.integers(0, 59), st.integers(0, 999999),
+            st.one_of(st.integers(-86399, 86399), st.integers(-14, 14).map(lambda x: x * 3600), st.sampled_from([0, -1800, 1800, -60, 59])),
+            zone,
+        )
+    raise H.HarnessError(f"no wide strategy for {t!r}")
+
+
+def _wide_dec(sign, digits, exp, norm):
+    d = decimal.Decimal((1 if sign else 0, tuple(int(c) for c in str(digits)), exp))
+    if norm:
+        d = d.normalize()
+    return str(d)
 
 
 # Document mode (C03): scalars are *lexical descriptions* - the text that goes into the document is
@@ -331,6 +387,13 @@ def untag(v):
     if k == "time":
         h, mi, s, us, off = v[1:]
         return dt.time(h, mi, s, us, tzinfo=dt.timezone(dt.timedelta(minutes=off)))
+    if k == "dtw":
+        y, mo, d, h, mi, s, us, off, name = v[1:]
+        tz = dt.timezone(dt.timedelta(seconds=off)) if name is None else dt.timezone(dt.timedelta(seconds=off), name)
+        return dt.datetime(y, mo, d, h, mi, s, us, tzinfo=tz)
+    if k == "timew":
+        h, mi, s, us, off = v[1:]
+        return dt.time(h, mi, s, us, tzinfo=dt.timezone(dt.timedelta(seconds=off)))
     raise H.HarnessError(v)
 
 
@@ -587,6 +650,8 @@ def minimal(cls, with_attr=None, with_member=None, _depth=0):
     for g in req:
         if not any(a in want for a in g):
             pick = with_attr if with_attr in g else g[0]
+            if cls.__name__ == "OFX" and with_attr and with_attr.endswith("rsv1") and "signonmsgsrsv1" in g:
+                pick = "signonmsgsrsv1"  # request and response message sets are never mixed
             want.add(pick)
     if with_attr:
         for g in list(opt) + list(req):
